@@ -58,16 +58,16 @@ theorem spanBytes_spaces {s : Src} {a m : Nat} (hm : m ≤ s.size) (h : ∀ j, a
 /-- `mlTextOK` of a slice of well-behaved text bytes -/
 theorem mlTextOK_span {s : Src} {a b a' t : Nat} (hT : TextBytes s a b) (h1 : a ≤ a') (h2 : a' < t) (h3 : t ≤ b) :
     mlTextOK (spanBytes s ⟨a', t⟩) = true := by
-  obtain ⟨hb, hc, hn⟩ := hT
+  obtain ⟨hb, hc, hn, hcr⟩ := hT
   have ht : t ≤ s.size := by omega
   simp only [mlTextOK, Bool.and_eq_true, Bool.not_eq_true', List.isEmpty_eq_false_iff]
-  refine ⟨⟨spanBytes_ne_nil h2 ht, ?_⟩, ?_⟩
+  refine ⟨⟨⟨spanBytes_ne_nil h2 ht, ?_⟩, ?_⟩, ?_⟩
   · apply spanBytes_all
     intro j j1 j2 x hx
     have := hc j (by omega) (by omega)
     rw [hx] at this
     simp only [ne_eq, Option.some.injEq] at this
-    simp [this.1, this.2.1, this.2.2]
+    simp [this.1, this.2]
   · rw [spanBytes_dropLast ht]
     apply spanBytes_all
     intro j j1 j2 x hx
@@ -75,16 +75,37 @@ theorem mlTextOK_span {s : Src} {a b a' t : Nat} (hT : TextBytes s a b) (h1 : a 
     rw [hx] at this
     simp only [ne_eq, Option.some.injEq] at this
     simp [this]
+  · cases hce : crlfEnd (spanBytes s ⟨a', t⟩) with
+    | false => rfl
+    | true =>
+      exfalso
+      simp only [crlfEnd, Bool.and_eq_true, beq_iff_eq] at hce
+      obtain ⟨e1, e2⟩ := hce
+      rw [spanBytes_getLast h2 ht] at e1
+      rw [spanBytes_dropLast ht] at e2
+      by_cases h4 : a' < t - 1
+      · rw [spanBytes_getLast h4 (by omega)] at e2
+        have := hcr (t - 1 - 1) (by omega) (by omega) e2
+        rw [show t - 1 - 1 + 1 = t - 1 by omega] at this
+        exact this e1
+      · rw [spanBytes_nil (by omega)] at e2
+        simp at e2
 
 theorem mlTextOK_spaces (k : Nat) (hk : 0 < k) : mlTextOK (spacesL k) = true := by
   simp only [mlTextOK, Bool.and_eq_true, Bool.not_eq_true', List.isEmpty_eq_false_iff, List.all_eq_true]
-  refine ⟨⟨?_, ?_⟩, ?_⟩
+  refine ⟨⟨⟨?_, ?_⟩, ?_⟩, ?_⟩
   · intro h; have : (spacesL k).length = 0 := by rw [h]; rfl
     simp [spacesL] at this; omega
   · intro x hx; simp [spacesL] at hx; rw [hx.2]; decide
   · intro x hx
     have := List.dropLast_subset _ hx
     simp [spacesL] at this; rw [this.2]; decide
+  · cases hcr : crlfEnd (spacesL k) with
+    | false => rfl
+    | true =>
+      obtain ⟨pre, hpre⟩ := (crlfEnd_iff _).mp hcr
+      have : (13 : UInt8) ∈ spacesL k := by rw [hpre]; simp
+      simp [spacesL] at this
 
 theorem endsNl_span {s : Src} {a b : Nat} (hab : a < b) (hb : b ≤ s.size) :
     endsNl (spanBytes s ⟨a, b⟩) = endsLF s b := by
